@@ -490,3 +490,27 @@ def _c14(bindir, tier, seed):
     jobs = shards(bindir, "sock_driver", "C14-enum", seed, 8, ["--property", "C14", "--mode", "stats-enum", "--maxlen", "6" if q else "10"], 3000)
     jobs += shards(bindir, "sock_driver", "C14-stats", seed, 8, ["--property", "C14", "--mode", "stats", "--cases", "25" if q else "1500"], 3000)
     return jobs
+
+
+# ---- C20 ---------------------------------------------------------------------------------------------------
+meta("C20", level="exploration",
+     rule="hostile inputs against every public constructor and call, each call under catch_unwind with a recording panic hook, the driver running as a sub-process so that an abort is seen by "
+          "the parent: empty / delimiter-only / NUL / 64 KiB / 1 MiB / invisible strings as prefix, key, tag, container id; 0, negative, MIN/MAX, NaN, +-inf, subnormal numbers; Durations at "
+          "the 64-bit boundaries; empty packed lists and lists of up to 10^6 elements; timestamps u64::MAX; MultiLineWriter capacities 0, 1, 2, 3, 7, 8, 64, 512, 65536, 2^20 x 5 terminators x "
+          "flaky writers (incl. the degenerate capacity-0/empty-terminator/empty-metric triple); buffered and unbuffered sinks with capacity 0, receivers gone / never reading / paths "
+          "unlinked, empty address lists; queue capacities 0, 1, 2 with failing and panicking wrapped sinks, clones, counters, Debug; MetricError / MetricValue / SocketStats APIs with extreme "
+          "values. Also checked: invalid values are reported as invalid-input errors and everything else reaches the sink exactly once. An overflow canary (255u8 + 1 must panic) proves that "
+          "overflow checks are on. distinct = (area, entry point / configuration class) signatures",
+     assumptions=["object sizes are capped (<= 64 MiB) so that allocation failure - which aborts and is not the library's fault - cannot occur; if the kernel kills the process the verdict is inconclusive",
+                  "cadence::test (doc-hidden test utilities with a documented assert!) is out of scope",
+                  "the build is the harness's release profile with overflow-checks and debug-assertions switched ON for cadence itself (proved by the canary at run time)"],
+     abort_is_violation=True, min_evaluations=300, must_observe={"guarded_calls": 5000, "overflow_canary_panicked_as_required": 5, "sent_or_reported_checks": 200})
+
+
+@plan("C20")
+def _c20(bindir, tier, seed):
+    q = tier == QUICK
+    jobs = []
+    for area, n, cases_q, cases_t in (("format", 8, 12, 1500), ("writer", 3, 3000, 400000), ("sinks", 2, 300, 40000), ("queue", 2, 300, 30000), ("misc", 1, 50, 2000)):
+        jobs += shards(bindir, "hostile_driver", "C20-" + area, seed, n, ["--area", area, "--cases", str(cases_q if q else cases_t)], 3400)
+    return jobs
